@@ -1,7 +1,6 @@
 /- `hist` op: setter histories (unverified IO glue). -/
 import Psa.Driver.ClaimsIO
 import Psa.Model.Setters
-import Psa.Generated.Funcs
 namespace Psa.Driver
 open Psa Psa.Model
 
@@ -72,18 +71,5 @@ def opCont (args : List String) : String :=
       "r=" ++ ",".intercalate rs ++ " final=[" ++ ";".intercalate (c.map fmtCompDesc) ++ "]"
     | none => "bad-op"
   | none => "bad-op"
-
-/-- `hashalg x<hex of valid UTF-8>`: the regenerated `ValidateHashAlgID` itself, run on the same text as the Go function
-    (a direct check of the translator, besides `Tie.gen_validateHashAlgID_spec`) -/
-def opHashAlg (args : List String) : String :=
-  match args with
-  | [v] =>
-    match xBytes? v with
-    | some b =>
-      match String.fromUTF8? (ByteArray.mk b.toArray) with
-      | some s => fmtUnit (Generated.validateHashAlgID s)
-      | none => "bad-op"
-    | none => "bad-op"
-  | _ => "bad-op"
 
 end Psa.Driver
